@@ -9,7 +9,9 @@ use std::time::{Duration, Instant};
 
 use serde_json::{json, Map, Value};
 
-pub const VERIF_ROOT: &str = "/verif";
+pub fn verif_root() -> String {
+    std::env::var("VERIF_ROOT").unwrap_or_else(|_| "/verif".to_string())
+}
 
 #[derive(Clone, Copy, PartialEq, Eq, Debug)]
 pub enum Tier {
@@ -299,7 +301,7 @@ pub struct Finding {
 }
 
 pub fn load_findings() -> Vec<Finding> {
-    let path = format!("{VERIF_ROOT}/known_findings.json");
+    let path = format!("{}/known_findings.json", verif_root());
     let Ok(s) = std::fs::read_to_string(&path) else {
         return vec![];
     };
@@ -380,8 +382,8 @@ pub fn finish(ctx: &Ctx, mut rep: Report, replay: &dyn Fn(&Value) -> Vec<Violati
             "tree": tree_id(),
         });
         let h = hash_of(&art.to_string());
-        let path = format!("{VERIF_ROOT}/replays/{}-{:016x}.json", ctx.id, h);
-        let _ = std::fs::create_dir_all(format!("{VERIF_ROOT}/replays"));
+        let path = format!("{}/replays/{}-{:016x}.json", verif_root(), ctx.id, h);
+        let _ = std::fs::create_dir_all(format!("{}/replays", verif_root()));
         std::fs::write(&path, serde_json::to_string_pretty(&art).unwrap()).unwrap();
         confirmed.push((v, path));
     }
@@ -402,9 +404,9 @@ pub fn finish(ctx: &Ctx, mut rep: Report, replay: &dyn Fn(&Value) -> Vec<Violati
         "machinery_errors": rep.machinery_errors,
         "tree": tree_id(),
     });
-    let _ = std::fs::create_dir_all(format!("{VERIF_ROOT}/evidence"));
+    let _ = std::fs::create_dir_all(format!("{}/evidence", verif_root()));
     std::fs::write(
-        format!("{VERIF_ROOT}/evidence/{}.json", ctx.id),
+        format!("{}/evidence/{}.json", verif_root(), ctx.id),
         serde_json::to_string_pretty(&ev).unwrap(),
     )
     .unwrap();
